@@ -1,7 +1,7 @@
 """C35 -- refine and simplify preserve value under their assumptions.
 Model: coq/Assume/RefineModel.v (the decision each rule of RefineVisitor / simplify_pow takes, as a function of
 the already refined arguments and of the assumptions, on top of the query model of C34).  Theorems:
-coq/Assume/RefineProofs.v, obligations coq/C35/P_*.v (rule by rule; the Pow-of-Pow rule is refuted).
+coq/Assume/{RefineProofs,RefinePow,RefineMaxMin}.v, obligations coq/C35/P_*.v (rule by rule).
 Tie: for every rule node of generated expressions the driver prints the refined arguments, every candidate result
 (built with the library's constructors) and the actual result of refine; the extracted model chooses a candidate;
 the check verifies the actual result IS that candidate (Max/Min: a second driver call rebuilds max/min of the
@@ -14,8 +14,8 @@ from checks import C34 as Q
 
 PROOF_MODULES = []     # coq/Assume/*.v are compiled directly by coqc (not yet in _CoqProject)
 OBLIGATIONS = ["C35/P_abs_rule_sound.v", "C35/P_sign_rule_sound.v", "C35/P_floor_ceiling_rule_sound.v",
-               "C35/P_conjugate_rule_sound.v", "C35/P_pow_rule_refuted.v", "C35/P_pow_rule_even_guarded.v", "C35/P_max_rule_sound.v", "C35/P_min_rule_sound.v",
-               "C35/P_nonvacuous.v"]
+               "C35/P_conjugate_rule_sound.v", "C35/P_pow_rule_sound_partial.v", "C35/P_max_rule_sound.v",
+               "C35/P_min_rule_sound.v", "C35/P_nonvacuous.v"]
 
 SYMS = Q.SYMS
 F1R = ["abs", "sign", "floor", "ceiling", "conjugate", "log"]
@@ -143,10 +143,21 @@ def rule_class(nodes, labels):
     if collapse:
         fired.append("Pow-collapse")
     # a rule with a known defect explains the difference whatever else fired in the same expression
-    for known in ("Pow-abs", "Pow-collapse"):
+    for known in ("Pow-collapse",):
         if known in fired:
             return known
     return "+".join(fired + mm) if (fired or mm) else "none"
+
+
+def oracle_skipped(dump, oracle):
+    """value comparisons that are not meaningful: infinities / nan / booleans inside arithmetic (C34.outside_domain);
+    floating point numbers in the expression (refine reassociates sums and products, rounding differs and can cross
+    a branch cut); max/min of non-real values"""
+    if Q.outside_domain(dump) or "(D " in dump or "(CD " in dump:
+        return True
+    if ("(FN Max" in dump or "(FN Min" in dump) and ("(C " in oracle or "(CD " in oracle):
+        return True
+    return False
 
 
 def explore(ctx, drv, model, cases, stats, search=False):
@@ -209,7 +220,7 @@ def explore(ctx, drv, model, cases, stats, search=False):
                                    "detail": "case %s\nnode %s inputs %s\nmodel decides %s = %s\nrefine gives %s" % (
                                        case, n["kind"], n["inputs"], lab, n["cands"].get(lab, "<no such candidate>"), n["result"])})
             stats["mismatches"] += 1
-        if len(f) > 4 and f[4].startswith("#ORACLE:") and not Q.outside_domain(f[0]):
+        if len(f) > 4 and f[4].startswith("#ORACLE:") and not oracle_skipped(f[0], f[4]):
             which = "refine" if "refine@" in f[4] else "simplify"
             key = "C35/%s-value:%s" % (which, rc)
             ctx.violation(key, "%s(e) has another value than e at a valuation satisfying the assumptions: %s ; refine/simplify = %s ; case %s" % (
@@ -270,7 +281,7 @@ def run(ctx):
     ctx.assumptions += [
         "the candidates of a rule are built by the library's constructors (neg, abs, pow, mul, log, max, min, ...), whose value preservation is "
         "not part of this property; could_extract_minus and mp_perfect_power_decomposition are inputs of the model",
-        "theorems are per rule and on values in Q(i); Log, Max/Min, simplify_pow and the Pow rule (refuted) have no value theorem: correspondence + oracle only",
+        "theorems are per rule and on values in Q(i); Log and simplify_pow have no value theorem (values outside Q(i)), the Pow rule is proved for an even inner and a half-integer outer exponent: otherwise correspondence + oracle only",
         "SimplifyVisitor::bvisit(Mul) is only covered by the oracle (its result is rebuilt by Mul::from_dict)",
     ]
 
